@@ -4,7 +4,7 @@
    each table is obtained on its own by keeping the label/signature items that lie in sections of its
    name and grouping them by a right fold (a signature belongs to the nearest label before it; a signature
    with no label before it makes the document invalid).
-   Theorem shape (Props/C06.v):  doc_ok d -> known_doc d = false -> load (render_text d) = flatten d.
+   Theorem shape (Props/C06.v):  doc_ok d -> load (render_text d) = flatten d.
    Definitions only. *)
 From Coq Require Import List NArith Bool.
 From Coq Require Import Strings.Byte.
@@ -79,7 +79,7 @@ Definition item_ok (x : item) : bool :=
   | IBlank => true
   | IComment t => clean_end t
   | IClasses cs => nonempty_list cs && forallb (word alnum) cs
-  | IUaOs rs => nonempty_list rs && forallb rule_ok rs
+  | IUaOs rs => nonempty_list rs && forallb rule_ok rs && clean (join (bs ",") (map render_rule rs))
   | ISection s => negb (sec_eqb s SecOther)
   | ILabel l => label_ok l
   | IMtuLabel n => nonempty n && clean n
@@ -107,14 +107,6 @@ Fixpoint ctx_ok (cur : option sec) (d : list item) : bool :=
   | x :: r => fits cur x && ctx_ok (next_sec cur x) r
   end.
 Definition doc_ok (d : list item) : bool := forallb item_ok d && ctx_ok None d.
-
-(* ---------- known defect class on documents (finding C06-list-remainder) ----------
-   a ua_os rule with a bracketed value, or a name that is not purely alphanumeric *)
-Definition plain_rule (r : bytes * option bytes) : bool :=
-  word alnum (fst r) && match snd r with None => true | Some _ => false end.
-Definition known_item (x : item) : bool :=
-  match x with IUaOs rs => negb (forallb plain_rule rs) | _ => false end.
-Definition known_doc (d : list item) : bool := existsb known_item d.
 
 (* ---------- what a document denotes ---------- *)
 (* what one item lying in section `cur` contributes to the table named s: a label (inl) or a signature (inr) *)
